@@ -143,7 +143,8 @@ class SvsNetWorld(World):
             st = inst.state
             if nd.prev_state == self.SvsState.SyncSuppression and st == self.SvsState.SyncSteady:
                 self.log('sup-end', node=nd.name, by='publish' if nd.new_data_this_step else 'timer', local=cur,
-                         tx=list(nd.tx_this_step), agg=dict(getattr(inst, 'agg_sv', {})))
+                         tx=list(nd.tx_this_step), agg=dict(getattr(inst, 'agg_sv', {})),
+                         lasted=None if nd.sup_since is None else self.now_us() - nd.sup_since)
             if st == self.SvsState.SyncSuppression and inst.running:
                 if nd.sup_since is None:
                     nd.sup_since = self.now_us()
